@@ -77,4 +77,35 @@ PROPS = {
             "wall-clock bound 300 s per pack as the observable for termination",
         ],
     },
+    "C02": {
+        "theorems": "JubakoModel.Theorems.C02",
+        "harness": "c02",
+        "profiles": ["debug"],
+        "rule": "one case = one directory pack: seeded schema (0..4 common properties, 0..4 variants of unequal size, property kinds uint / sint / content address / array with inline prefix in {0,1,2,3,5,31} on plain or indexed value stores, shared or not), 0..300 (quick) / 0..3000 (thorough) entries with constant and varying columns, integers at every byte-width boundary and both signs, arrays at length-field and prefix boundaries incl. empty, duplicates; indexes: whole store, sub-range, empty window; plus hand-picked shapes (signed boundaries, variant ending in a constant column, empty variant, value-store tail beyond 65535 bytes, 255/256/65535/65536-byte arrays, store shared by two properties); every entry of every index is read back through Index/AnyBuilder/LazyEntry and compared with what was written (oracle), the pack is decoded by the Lean decoder (dp.decode) and re-encoded byte for byte by the Lean creator model (dp.encode); non-trivial = at least one entry; distinct = distinct spec fingerprint",
+        "assumptions": [
+            "creation through DirectoryPackCreator/EntryStore/BasicEntry::new_from_schema with one entry store per pack",
+            "unrepresentable input in the generator: value-store tail beyond 65535 bytes (creation must fail); arrays beyond 2^24-1 bytes, names beyond 255 bytes and more than 255 properties are not generated",
+            "deported integer properties (0xA/0xB) are never written by the creator; the Lean decoder implements them, the correspondence does not exercise them",
+        ],
+    },
+    "C03": {
+        "theorems": "JubakoModel.Theorems.C03",
+        "harness": "c03",
+        "profiles": ["debug"],
+        "rule": "one case = one entry store declared sorted on 1..2 properties: array keys (inline prefix 0/1/2/3/31, plain or indexed store; key sets built around shared stems so that prefixes shorter, equal and longer than the inline prefix collide, alphabet {00,FF,'a','b'}, empty key), unsigned keys, signed keys, (unsigned, array) pairs; 1..400 (quick) / 1..4000 (thorough) unique keys inserted in shuffled order; whole-store and sub-range indexes; per index 12 (quick) / 40 (thorough) probes, 2/3 present and 1/3 perturbed keys, each looked up through RangeTrait::find with ordered()=true and =false; every 20th case duplicates a sort key (creation must fail); non-trivial = at least two entries; distinct = distinct spec fingerprint",
+        "assumptions": [
+            "the parallel unstable sort is abstracted to 'any order accepted by the code's own post-check' (c03_stored_order); a sort that never satisfies the check panics after 50 passes (creation failure)",
+            "search is exercised through a custom CompareTrait built from public reader APIs (Array::cmp, as_unsigned, as_signed): PropertyCompare::ordered is always false in the library",
+        ],
+    },
+    "C15": {
+        "theorems": "JubakoModel.Theorems.C15",
+        "harness": "c15",
+        "profiles": ["debug"],
+        "rule": "one case = one entry store of 0, 1, 2, ~256, 1500 (quick) / 5000 (thorough) or a random number of entries with a unique key and two reference properties bound (Vow/Bound/Word) to other entries: self, forward chain, backward chain, star and random graphs; sorted and unsorted stores; Bound::get() of every entry after finalize and both reference values of every stored entry compared with the final position of the (referenced) key; Lean decoder + byte-exact Lean re-encoding with the resolved positions; non-trivial = at least two entries",
+        "assumptions": [
+            "a sort key that is itself a deferred reference is outside the property (the comparator would change during sorting)",
+            "the parallel index assignment (rayon par_iter_mut) is modelled as one atomic set_entry_idx step; relaxed atomics are read only after the parallel section has joined",
+        ],
+    },
 }
